@@ -29,6 +29,7 @@ type replayValue struct {
 
 type replayFile struct {
 	Retries int           `json:"retries,omitempty"`
+	Tier    string        `json:"tier,omitempty"`
 	Harness string        `json:"harness"`
 	Values  []replayValue `json:"values"`
 }
@@ -59,7 +60,14 @@ func reset(path string) error {
 	if err != nil {
 		return err
 	}
-	return json.Unmarshal(b, &rp)
+	if err := json.Unmarshal(b, &rp); err != nil {
+		return err
+	}
+	if rp.Tier != "" {
+		// the harness's bounds (zz.Thorough) are those of the run that produced the replay
+		os.Setenv("VERIF_TIER", rp.Tier)
+	}
+	return nil
 }
 
 func next(name string) uint64 {
